@@ -9,7 +9,7 @@ ENGINES = [ENGINE]
 RULE = ('sessions aimed at the relay decision: relayclients / relayclients6 absent, listing the client, listing another network, with a size that is not a '
         'multiple of the record size, with an invalid prefix length, unreadable; IPv4-mapped and IPv6 clients; remote recipients before and after local ones, '
         'repeated after an error, across RSET and several transactions; AUTH PLAIN attempts (right and wrong password, malformed, unknown mechanism, backend crash, '
-        'repeated, inside a transaction, with and without a configured backend) mixed with HELO/EHLO/RSET and remote recipients; plus the general session histories. non-trivial = a remote recipient was attempted '
+        'repeated, inside a transaction, with and without a configured backend) mixed with HELO/EHLO/RSET and remote recipients; the same and dedicated histories on the submission port 587 (MAIL FROM before / after / without AUTH, after a failed AUTH, repeated after a refusal, every kind of relay list, missing "<"); plus the general session histories. non-trivial = a remote recipient was attempted '
         'and a DATA was accepted, or a hand-off happened; distinct by case text')
 TRUSTED_BASE = TRUSTED_COMMON
 ASSUMPTIONS = ASSUMPTIONS_COMMON + [
@@ -22,7 +22,7 @@ LEVEL_TEXT = ('Coq theorems for all oracles and all client byte streams: a recip
               'relayclient is set to 2 before the result is inspected and the cached decision is 1 only after a positive lookup (invariant Irel); an AUTH note '
               'appears only where a backend is configured and the mechanism handler reported success for that name; every hand-off envelope consists of '
               'accepted recipients only. Tied to the binary by whole-program runs with all kinds of relay list for v4 and v6 clients and AUTH PLAIN attempts '
-              'against a checkpassword stand-in.')
+              'against a checkpassword stand-in. On the submission port (TCPLOCALPORT 587) MAIL FROM itself gets its 250 only from a client with that same entitlement (C01_submission_needs_entitlement): smtp_from calls the same is_authenticated(), with the same cache and the same fail-closed treatment of a broken list.')
 LEVEL_NOTE = ('Partial: the TLS client certificate entitlement (tls_verify) is outside the model; multi-line AUTH exchanges (LOGIN, PLAIN without initial '
               'response) end the modelled session (their logic is property C09); lookup internals are C16.')
 TECHNIQUE = 'Coq invariant proof over the session model (cached relay decision, authentication flag in step with the trace) as part of the simulation; whole-program differential run over relay-list kinds'
